@@ -30,6 +30,10 @@ type Config struct {
 	Asym      bool // one-directional partitions are in the alphabet
 	Puppets   bool // only n0 is a real node; the others are played by the harness
 	ArmDepth  int  // crash arming reaches the k-th next storage call, k < ArmDepth (default 2)
+	FileStore bool // nodes run on the real file-backed storages (C14)
+	Dir       string
+	Plan      *CrashPlan
+	RecordFs  bool
 	Rot       int  // timed mode: rotation of the staggered election timeouts
 	Cold      bool // spare nodes are constructed but neither bootstrapped nor started
 }
@@ -98,6 +102,7 @@ type Node struct {
 	Sn    *SnapDisk
 	MLog  *MemLog
 	Fatal string // set when the library called os.Exit on this node
+	ConstructErr string
 	Insts int    // fsm instances created so far
 }
 
@@ -141,6 +146,14 @@ type Cluster struct {
 	// StorageSeen is called for every storage hook (monitors).
 	StorageSeen func(node int, op string, phase int)
 	Problems    []string // harness-level anomalies (panics in tasks ...)
+	PlannedDead map[[2]int]bool
+	Dir         string // FileStore: root directory of this execution
+	FsCalls     []int  // FileStore: mutating file-system calls per node
+	FsTrace     []string
+	RecordFs    bool
+	CrashedAt   string
+	crashDone   bool
+	ctlCrash    bool
 	// LogObservers see every append/truncate/discard of every node's log.
 	LogObservers []func(node int, op string, index uint64, entries []*raft.LogEntry)
 	Stagger      bool // election timeouts are staggered per node (timed runs)
@@ -175,7 +188,12 @@ func (c *Cluster) idIndex(id string) int {
 func New(cfg Config, b Budget) *Cluster {
 	vsched.Reset()
 	vtime.Reset()
-	c := &Cluster{Cfg: cfg, B: b, Armed: map[int]*ArmSpec{}, Stagger: cfg.Timed, Rot: cfg.Rot}
+	c := &Cluster{Cfg: cfg, B: b, Armed: map[int]*ArmSpec{}, Stagger: cfg.Timed, Rot: cfg.Rot, PlannedDead: map[[2]int]bool{}, Dir: cfg.Dir}
+	if cfg.FileStore && cfg.Plan != nil {
+		c.InstallIntercept(cfg.Plan)
+	} else if cfg.FileStore {
+		c.InstallIntercept(nil)
+	}
 	c.Net = &Network{C: c, seq: map[string]int{}}
 	c.Blocked = make([][]bool, cfg.Voters+cfg.Spares)
 	for i := range c.Blocked {
@@ -184,6 +202,11 @@ func New(cfg Config, b Budget) *Cluster {
 	vsched.RandHook = func(n int64) int64 { return c.randomOffset(n) }
 	vsched.OnExit = func(node, code int) {
 		if node >= 0 && node < len(c.Nodes) {
+			if c.PlannedDead[[2]int{node, vsched.CurInc()}] {
+				// the process was killed by the injected crash: whatever its
+				// remaining goroutines run into is not an abort of the library
+				return
+			}
 			c.Nodes[node].Fatal = fmt.Sprintf("os.Exit(%d)", code)
 			c.crashQ = append(c.crashQ, node)
 			vsched.Interrupt()
@@ -260,21 +283,57 @@ func (c *Cluster) construct(n *Node) {
 			f(node, op, index, entries)
 		}
 	}
+	var lg raft.Log = n.MLog
+	var stg raft.StateStorage = &MemState{Disk: n.St, Node: n.Idx, Hook: hook}
+	var sng raft.SnapshotStorage = &MemSnapStore{Disk: n.Sn, Node: n.Idx, Hook: hook}
+	if c.Cfg.FileStore {
+		var err error
+		lg, stg, sng, err = c.constructFiles(n)
+		if err != nil && c.ctlCrash {
+			// the injected crash hit the node while it was starting up: it is
+			// simply down again
+			c.ctlCrash = false
+			n.R = nil
+			n.Inc++
+			vsched.NodeInc[n.Idx] = n.Inc
+			return
+		}
+		if err != nil {
+			n.Fatal = "constructor: " + err.Error()
+			n.ConstructErr = err.Error()
+			return
+		}
+	}
 	r, err := raft.NewRaft(n.ID, n.Addr, n.Fsm, "",
-		raft.WithLog(n.MLog),
-		raft.WithStateStorage(&MemState{Disk: n.St, Node: n.Idx, Hook: hook}),
-		raft.WithSnapshotStorage(&MemSnapStore{Disk: n.Sn, Node: n.Idx, Hook: hook}),
+		raft.WithLog(lg),
+		raft.WithStateStorage(stg),
+		raft.WithSnapshotStorage(sng),
 		raft.WithTransport(n.Tr),
 		raft.WithElectionTimeout(ET), raft.WithHeartbeatInterval(HB), raft.WithLeaseDuration(Lease),
 		raft.WithLogLevel(logging.Fatal),
 	)
+	if err != nil && c.ctlCrash {
+		c.ctlCrash = false
+		n.R = nil
+		n.Inc++
+		vsched.NodeInc[n.Idx] = n.Inc
+		return
+	}
 	if err != nil {
+		if c.Cfg.FileStore {
+			n.Fatal = "NewRaft: " + err.Error()
+			n.ConstructErr = err.Error()
+			return
+		}
 		panic("INFRA: NewRaft: " + err.Error())
 	}
 	n.R = r
 }
 
 func (c *Cluster) start(n *Node) {
+	if n.R == nil {
+		return // construction failed (recorded in n.Fatal)
+	}
 	vsched.CtlNode = n.Idx
 	vsched.CtlInc = n.Inc
 	if err := n.R.Start(); err != nil {
@@ -673,6 +732,10 @@ func (c *Cluster) Inject1(e Event) error {
 		if err := c.applyPuppet(e); err != nil {
 			return err
 		}
+	case "flush":
+		// deliver every deliverable message and reply, oldest first, until the
+		// network is quiet (scripted scenarios)
+		c.deliverAll()
 	case "adv", "lag":
 		if e.K == "lag" {
 			c.B.Lags--
